@@ -27,11 +27,22 @@ class LinearMatrix(_AbstractDistribution):
     ):
 
         # Set precision for inconsistently passed objects ------------------------------
-        if dtype is not None:
-            G.dtype = dtype
-        d = d.astype(G.dtype)
-        if type(data_covariance) not in [float, _numpy.float32, _numpy.float64]:
-            data_covariance = data_covariance.astype(G.dtype)
+        # By conversion to a copy (assigning to G.dtype would reinterpret the bytes of the
+        # caller's matrix); without a dtype the precision of G is used, integers become
+        # floats
+        if dtype is None:
+            dtype = _numpy.result_type(G.dtype, _numpy.float32)
+        G = G.astype(dtype)
+        d = d.astype(dtype)
+        if isinstance(
+            data_covariance, (int, float, _numpy.integer, _numpy.floating)
+        ):
+            # Also NumPy scalars (sigma ** 2 with a NumPy sigma) are scalar variances
+            data_covariance = float(data_covariance)
+        else:
+            data_covariance = data_covariance.astype(dtype)
+        # The concrete classes compute in this precision (their own default is single)
+        kwargs["dtype"] = dtype
 
         # Four cases:
         # 1 - Dense G, scalar/vector covariance
